@@ -322,6 +322,7 @@ impl<'a> AddressRecordRepr<'a> {
     where
         T: AsRef<[u8]> + ?Sized,
     {
+        record.check_len()?;
         Ok(Self {
             num_srcs: record.num_srcs(),
             mcast_addr: record.mcast_addr(),
